@@ -55,6 +55,24 @@ type Op struct {
 	From  Ref    `json:"from,omitempty"`
 	Limit int    `json:"limit,omitempty"`
 	Sub   string `json:"sub,omitempty"`
+	// Pad > 0 wraps the document as {"d":<doc>,"pad":"<Pad bytes>"}: a large
+	// record (page, chunk and buffer boundaries) without a large case file.
+	Pad int `json:"pad,omitempty"`
+}
+
+func (op Op) doc() string {
+	if op.Pad <= 0 {
+		return op.Data
+	}
+	var b strings.Builder
+	b.WriteString(`{"d":`)
+	b.WriteString(op.Data)
+	b.WriteString(`,"pad":"`)
+	for i := 0; i < op.Pad; i++ {
+		b.WriteByte("abcdefghijklmnopqrstuvwxyz0123456789"[(i*7+op.Pad)%36])
+	}
+	b.WriteString(`"}`)
+	return b.String()
 }
 
 type Case struct {
@@ -241,8 +259,8 @@ func (r *run) step(i int, op Op) {
 	what := fmt.Sprintf("op %d %s", i, op.K)
 	switch op.K {
 	case "append", "append2":
-		ev := &eventbus.Event{Type: op.Type, Data: []byte(op.Data)}
-		ent := entry{typ: op.Type, data: op.Data}
+		ev := &eventbus.Event{Type: op.Type, Data: []byte(op.doc())}
+		ent := entry{typ: op.Type, data: op.doc()}
 		if op.TS != nil {
 			ev.Timestamp = op.TS.Time()
 			ent.ts = ev.Timestamp
